@@ -479,6 +479,21 @@ struct Shared
   std::vector<std::vector<std::unique_ptr<sdklogs::Recordable>>> held;  // per processor, owned
   Tables *tb = nullptr;
   int nak    = 0;
+  std::string scopes[4][3];  // instrumentation scope (name, version, schema url) of logger 1..3
+};
+
+// Instrumentation scopes of the three loggers of one behaviour (logger 3 is the one the
+// ScopeConfigurator disables, by scope name).  Besides the plain table: scopes whose fields are
+// prefixes of one another, have empty version / schema url, and whose CONCATENATED fields coincide
+// (a registry keyed by anything weaker than the three fields would mix them up).
+static const char *kScopeTables[][3][3] = {
+    {{"lib-one", "1.0.1", "https://schema.example/one"}, {"lib-two", "2.2", ""}, {"lib-disabled", "0.1", ""}},
+    {{"http", "2", ""}, {"http2", "", ""}, {"lib-disabled", "0.1", ""}},
+    {{"svc", "1.0", "https://s/1"}, {"svc1.0", "", "https://s/1"}, {"off", "", ""}},
+    {{"lib-", "disabled", ""}, {"x", "y", "z"}, {"lib-disabled", "", ""}},
+    {{"x", "", "yz"}, {"x", "y", "z"}, {"xy", "z", ""}},
+    {{"a", "", ""}, {"a", "1", ""}, {"a1", "", ""}},
+    {{"net", "", "1.2"}, {"net", "1.2", ""}, {"net1", ".2", ""}},
 };
 
 static json Project(Shared &sh, sdklogs::Recordable *rec)
@@ -500,13 +515,10 @@ static json Project(Shared &sh, sdklogs::Recordable *rec)
   // instrumentation scope -> logger number
   const auto &sc     = rw->GetInstrumentationScope();
   std::string scname = sc.GetName(), scver = sc.GetVersion(), scurl = sc.GetSchemaURL();
-  int lg = -1;
-  if (scname == "lib-one" && scver == "1.0.1" && scurl == "https://schema.example/one")
-    lg = 1;
-  else if (scname == "lib-two" && scver == "2.2" && scurl.empty())
-    lg = 2;
-  else if (scname == "lib-disabled")
-    lg = 3;
+  int lg = -1;  // the logger whose (name, version, schema url) is exactly this scope
+  for (int i = 1; i <= 3; ++i)
+    if (scname == sh.scopes[i][0] && scver == sh.scopes[i][1] && scurl == sh.scopes[i][2])
+      lg = i;
   o["lg"] = lg;
   // resource
   int res          = -1;
@@ -815,32 +827,43 @@ struct Replayer
     ra.SetAttribute("service.name", "svc-" + std::to_string(res));
     typedef scope::ScopeConfigurator<sdklogs::LoggerConfig> Conf;
     std::unique_ptr<Conf> conf;
+    const size_t table = rng() % (sizeof(kScopeTables) / sizeof(kScopeTables[0]));
+    for (int i = 0; i < 3; ++i)
+      for (int f = 0; f < 3; ++f)
+        sh.scopes[i + 1][f] = kScopeTables[table][i][f];
+    const std::string on1 = sh.scopes[1][0], on2 = sh.scopes[2][0], off = sh.scopes[3][0];
     switch (rng() % 3)
     {
       case 0:
         conf.reset(new Conf(Conf::Builder(sdklogs::LoggerConfig::Default())
-                                .AddConditionNameEquals("lib-disabled", sdklogs::LoggerConfig::Disabled())
+                                .AddConditionNameEquals(off, sdklogs::LoggerConfig::Disabled())
                                 .Build()));
         break;
       case 1:
         conf.reset(new Conf(Conf::Builder(sdklogs::LoggerConfig::Enabled())
-                                .AddCondition([](const scope::InstrumentationScope &s) { return s.GetName() == "lib-one"; },
+                                .AddCondition([on1](const scope::InstrumentationScope &s) { return s.GetName() == on1; },
                                               sdklogs::LoggerConfig::Enabled())
-                                .AddCondition([](const scope::InstrumentationScope &s) { return s.GetName().size() == 12; },
+                                .AddCondition([off](const scope::InstrumentationScope &s) { return s.GetName() == off; },
                                               sdklogs::LoggerConfig::Disabled())
                                 .Build()));
         break;
       default:
         conf.reset(new Conf(Conf::Builder(sdklogs::LoggerConfig::Disabled())
-                                .AddConditionNameEquals("lib-one", sdklogs::LoggerConfig::Enabled())
-                                .AddConditionNameEquals("lib-two", sdklogs::LoggerConfig::Enabled())
+                                .AddConditionNameEquals(on1, sdklogs::LoggerConfig::Enabled())
+                                .AddConditionNameEquals(on2, sdklogs::LoggerConfig::Enabled())
                                 .Build()));
         break;
     }
     provider.reset(new sdklogs::LoggerProvider(std::move(procs), sdkres::Resource::Create(ra), std::move(conf)));
-    loggers[1] = provider->GetLogger("logger-one", "lib-one", "1.0.1", "https://schema.example/one");
-    loggers[2] = provider->GetLogger("logger-two", "lib-two", "2.2");
-    loggers[3] = provider->GetLogger("logger-off", "lib-disabled", "0.1");
+    {
+      // the loggers are obtained in a seeded order; in the plain table each has its own logger name,
+      // in the others they share one (the scope alone must tell them apart)
+      int order[3] = {1, 2, 3};
+      std::shuffle(order, order + 3, rng);
+      static const char *names[] = {"", "logger-one", "logger-two", "logger-off"};
+      for (int i : order)
+        loggers[i] = provider->GetLogger(table == 0 ? names[i] : "logger", sh.scopes[i][0], sh.scopes[i][1], sh.scopes[i][2]);
+    }
     spans.resize(32);
     spans[0] = nostd::shared_ptr<trace::Span>(new trace::DefaultSpan(trace::SpanContext::GetInvalid()));
     for (int s = 1; s < 32; ++s)
